@@ -1,4 +1,4 @@
-"""C19 acquisition geometries: correspondence + probes (no translator: the code is formulas, not tables)."""
+"""C19 acquisition geometries: formula translator + correspondence + probes."""
 import math
 from fractions import Fraction as Fr
 
@@ -6,7 +6,14 @@ import numpy as np
 
 from . import common as C
 
+from translate import geometry_formulas as GF
+
 PID = 'C19'
+
+
+def translate():
+    return {'Gen/GeometryFormulas.v': GF.translate(C.REPO)}
+
 SHARD_SIZE = 40
 IMPORTS = ['C19.Model', 'C19.Corr']
 
@@ -1245,8 +1252,10 @@ ASSUMPTIONS = ['exact arithmetic: rounding is out of scope; np.cos/np.sin/np.arc
                'NumPy broadcasting/shape mechanics of the vectorised entry points are validated by probes, not modelled',
                'cone_beam_geometry/helical_geometry: only the detector extent formulas are modelled (not the Nyquist '
                'sample counts, ceil, arctan)']
-TRUSTED = ['C19/Model.v: hand transcription of utility.py / detector.py / geometry.py / parallel.py / conebeam.py, tied to '
-           'the code by the correspondence only (no translator: the code is formulas, not tables)',
+TRUSTED = ['translate/geometry_formulas.py (Python ast -> Gallina, fail closed): matrix literals of euler_matrix, entries of '
+           'axis_rotation_matrix, native surface/surface_deriv vectors of the curved detectors',
+           'C19/Model.v: hand transcription of the rest of utility.py / detector.py / geometry.py / parallel.py / '
+           'conebeam.py (constructors, transform_system, from_to, reference points), tied to the code by the correspondence',
            'C19/Corr.v: rounding rational carrier NQ and Qsqrt used to execute the model',
            'harness/c19.py: flattening order of the observations on both sides']
 LEVEL_TEXT = ('Partial proof. Proved in Coq for ALL parameters (every axis, initial position, translation, radius, shift, '
